@@ -270,7 +270,8 @@ def plan_c03(prop, tier, seed, t0):
     over = dict(AckRefs={1, 2}, ModSecs={0}, Advances={2}, PullMaxes={1, 2},
                 OpKinds={"CreateTopic", "CreateSub", "Publish", "Pull", "PullWait", "Ack", "ModAck", "Advance"},
                 MaxOps=6)
-    return core_check(prop, tier, seed, t0, over, explore=[("data", 64, 3000)], caps=(16, 1, 2),
+    return core_check(prop, tier, seed, t0, over, explore=[("data", 48, 2000), ("consumers", 64, 3000)], caps=(16, 1, 2),
+                      extra_scenarios=lambda quick, sd: cancel_scenarios(sd, kinds={"Pull", "Ack", "ModAck", "ModAck30"}, quick=quick),
                       thorough={"mc": dict(MaxOps=7, MaxMsgs=3)})
 
 
@@ -486,6 +487,61 @@ def c12_scenarios(n_seeds, seed):
             start("d", 1, op="DeleteSub", name=S1),
             {"do": "wait", "h": "d"}, {"do": "wait", "h": "pub"}, {"do": "wait", "h": "p"}, {"do": "swait", "h": "s"}],
             seed=sd, cap=cap))
+    return out
+
+
+def cancel_scenarios(seed, kinds=None, quick=True):
+    """Every request kind x (polls before the drop) x (scheduler turns between polls) x
+    (target mailbox empty / saturated), followed by probes and a drain."""
+    out = []
+    calls = {
+        "Pull": dict(op="Pull", sub=S1, max=1, ri=True),
+        "Ack": dict(op="Ack", sub=S1, acks=[{"d": 1}]),
+        "ModAck": dict(op="ModAck", sub=S1, acks=[{"d": 1}], secs=0),
+        "ModAck30": dict(op="ModAck", sub=S1, acks=[{"d": 1}], secs=30),
+        "Publish": dict(op="Publish", topic=T1, msgs=[{"p": "x1"}, {"p": "x2"}]),
+        "CreateSub": dict(op="CreateSub", name=S2, topic=T1, ack=10),
+        "DeleteSub": dict(op="DeleteSub", name=S1),
+        "DeleteTopic": dict(op="DeleteTopic", name=T1),
+        "GetSub": dict(op="GetSub", name=S1),
+        "ListTopicSubs": dict(op="ListTopicSubs", topic=T1, size=0, token=""),
+    }
+    # which actor a request kind goes through first
+    target = {"Pull": "sub", "Ack": "sub", "ModAck": "sub", "ModAck30": "sub", "GetSub": "sub", "DeleteSub": "sub",
+              "Publish": "topic", "CreateSub": "topic", "DeleteTopic": "topic", "ListTopicSubs": "topic"}
+    n = 0
+    for kind, callspec in calls.items():
+        if kinds and kind not in kinds:
+            continue
+        for polls in (1, 2, 3):
+            for yields in (0, 1, 3):
+                for sat in (False, True):
+                    for cap in ((1, 2) if sat else (16, 1)):
+                        if quick and (polls, yields) not in ((1, 0), (1, 1), (2, 1), (3, 3)):
+                            continue
+                        n += 1
+                        steps = [call(1, op="CreateTopic", name=T1), call(1, op="CreateSub", name=S1, topic=T1, ack=10),
+                                 call(1, op="Publish", topic=T1, msgs=[{"p": "a"}, {"p": "b"}]),
+                                 call(2, op="Pull", sub=S1, max=1, ri=True)]
+                        if sat:
+                            # saturate the mailbox the request goes to: cap requests in the box, one parked
+                            for j in range(cap + 1):
+                                if target[kind] == "sub":
+                                    steps.append({"do": "hold", "h": "f%d" % j, "c": 20 + j, "call": dict(op="GetSub", name=S1)})
+                                else:
+                                    steps.append({"do": "hold", "h": "f%d" % j, "c": 20 + j,
+                                                  "call": dict(op="ListTopicSubs", topic=T1, size=0, token="")})
+                        steps.append({"do": "polldrop", "c": 3, "call": callspec, "polls": polls, "yields": yields})
+                        steps += [{"do": "release"}, {"do": "settle"},
+                                  # probes: is anything wedged, half-created or lost?
+                                  call(4, op="ListTopicSubs", topic=T1, size=0, token=""),
+                                  call(4, op="GetSub", name=S1), call(4, op="GetSub", name=S2),
+                                  call(4, op="Publish", topic=T1, msgs=[{"p": "probe"}]),
+                                  call(4, op="Pull", sub=S1, max=10, ri=True),
+                                  call(4, op="Pull", sub=S2, max=10, ri=True),
+                                  {"do": "drain", "c": 9}]
+                        out.append(scn("cx-%s-p%d-y%d-%s-cap%d" % (kind, polls, yields, "sat" if sat else "free", cap), steps,
+                                       seed=seed * 1000 + n, cap=cap))
     return out
 
 
